@@ -115,6 +115,17 @@ def _apply_unified(sources, patch_text):
             body = hm.group(5).split('\n')
             if body and body[-1] == '':
                 body = body[:-1]
+            # like `git apply`: a hunk whose context is found a few lines away from the recorded position (the tree under test has had
+            # lines added or removed further up) is applied there -- the nearest place at or after the previous hunk where it fits
+            old_side = [bl[1:] if bl else '' for bl in body if not bl.startswith('\\') and (bl[:1] in (' ', '-') or bl == '')]
+
+            def fits(at):
+                return at >= pos and at + len(old_side) <= len(lines) and lines[at:at + len(old_side)] == old_side
+            if not fits(start):
+                cand = [start + d_ for k_ in range(1, 400) for d_ in (-k_, k_) if fits(start + d_)]
+                if not cand:
+                    return None
+                start = cand[0]
             if start < pos:
                 return None
             res.extend(lines[pos:start])
